@@ -2,7 +2,7 @@
 
 TITLES = {}
 
-HOOK_COMMITS = []  # filled as hook commits land in /repo
+HOOK_COMMITS = ["9144a7f", "269897c", "35d9d57"]
 
 LEVEL = {
     "category": "model_checking",
@@ -28,5 +28,12 @@ CHECKS = {
         ref="5 C07",
     ),
 }
+
+CHECKS["C06"] = dict(
+    technique="TLC model check over all tie orders (MC_Resolve: Deterministic, IrrelevantFree) + real code run in forced iteration orders (order hook), permuted registration, added non-applicable methods, hash seeds; compared by the TLA+ judge (Trace_Resolve C06Clause, premise checked by the Doc layer)",
+    text="The set-iteration order is an explicit nondeterministic choice in the Impl layer and TLC checks that every choice gives one outcome and that removing a non-applicable method never changes it; on the real code the guarded order hook forces sorted / reversed / shuffled / rotated iteration at the three set-iteration sites, and the same call is repeated under permuted registration, irrelevant extra methods, garbage allocation and several PYTHONHASHSEEDs in fresh processes. TLC verifies the premise (same applicable methods) with the Doc layer and demands equal outcomes.",
+    note="Trusts: the three hooked sites are the only order-sensitive iteration in the resolution path (hash seeds and fresh class objects vary the rest). Outcome = kind + chain of entered methods; message texts are not compared.",
+    ref="5 C06",
+)
 
 PENDING_REASON = "check not built yet in this round (planned, see DESIGN section 10)"
